@@ -2,11 +2,12 @@
    models (nothing regenerated from /repo): used to search for a failing input
    when the translation or a proof about the generated code is broken. *)
 From Coq Require Import Extraction ExtrOcamlBasic.
-From LE Require Import Base Strs Config Err ConfigSpec ErrSpec Retry RetrySpec Store.
+From LE Require Import Base Strs Config Err ConfigSpec ErrSpec Retry RetrySpec Store Ev World Mon Proto Run.
 
 Extraction Language OCaml.
 Extraction "extracted.ml"
   valid_specb mkCfg
   msg class_ok required_class nats_situation_permanent
   sstep srun empty_store
-  backoff_withinb cb_spec_step retry_loop.
+  backoff_withinb cb_spec_step retry_loop
+  kind_names decode check_trace check_guards.
